@@ -375,6 +375,44 @@ func c09(r *mon.Run) {
 			}
 			t.Nontrivial("tricky:" + strconv.Itoa(i))
 		}}
+	// awkward member names as the key expression of map / sort_by / max_by / min_by (and as plain arguments):
+	// &"a.b" reads the member called a.b, not b inside a
+	akw := mon.Workload{Name: "awkward-keys-in-expression-references", N: len(awkwardKeys) * 8,
+		Do: func(i int, t *mon.Tally) {
+			k := awkwardKeys[i/8]
+			mk := func(v interface{}, q int) map[string]interface{} {
+				d := awkwardDoc(k)
+				d[k] = v
+				d["i"] = float64(q)
+				return d
+			}
+			rows := []interface{}{mk(float64(2), 0), mk(float64(1), 1), mk(float64(3), 2)}
+			doc := map[string]interface{}{"rows": rows, "o": map[string]interface{}{"inner": mk("str", 9)}}
+			K := gen.QField(k)
+			R := gen.Field("rows")
+			var tree *gen.Expr
+			switch i % 8 {
+			case 0:
+				tree = gen.Func("map", gen.ExpRef(K), R)
+			case 1:
+				tree = gen.Chain(gen.Func("sort_by", R, gen.ExpRef(K)), gen.StListStar(), gen.StField("i"))
+			case 2:
+				tree = gen.Chain(gen.Func("max_by", R, gen.ExpRef(K)), gen.StField("i"))
+			case 3:
+				tree = gen.Chain(gen.Func("min_by", R, gen.ExpRef(K)), gen.StField("i"))
+			case 4:
+				tree = gen.Func("map", gen.ExpRef(gen.Chain(gen.Current(), gen.StQField(k))), R)
+			case 5:
+				tree = gen.Func("length", gen.Chain(gen.Field("o"), gen.StField("inner"), gen.StQField(k)))
+			case 6:
+				tree = gen.Func("sort", gen.Chain(R, gen.StListStar(), gen.StQField(k)))
+			default:
+				tree = gen.Func("map", gen.ExpRef(gen.MultiList(K, gen.Field("i"))), R)
+			}
+			cx := &caseCtx{r, t, "awkward-keys-in-expression-references", i}
+			cx.runBoth(tree, gen.SpellTight(tree), doc)
+			t.Nontrivial("ak:" + strconv.Itoa(i))
+		}}
 	// nested in random contexts
 	nr := tierPick(r, 40000, 1000000)
 	ctx := mon.Workload{Name: "calls-in-context", N: nr,
@@ -469,5 +507,5 @@ func c09(r *mon.Run) {
 				t.Nontrivial("large:" + expr + ref.Canon(doc))
 			}
 		}}
-	r.Exec(exh, typed, every, strw, trw, kindPairsWorkload(r, "C09"), ctx, large, sizedWorkload(r, "sized-arrays", false))
+	r.Exec(exh, typed, every, strw, trw, akw, kindPairsWorkload(r, "C09"), ctx, large, sizedWorkload(r, "sized-arrays", false))
 }
